@@ -498,10 +498,17 @@ class Interp:
             if rhs[0] == "var":
                 rv, is_lit = self.var_results(rhs[1], scope)
                 if not is_lit:
+                    # a query on the right: only its emptiness is decided here (an empty selection on either side makes the clause SKIP)
+                    if not rv or not results:
+                        return "SKIP"
                     raise Unspec("query-valued right-hand side")
                 lit = rv[0].v
             elif rhs[0] == "lit":
                 lit = rhs[1]
+            elif rhs[0] == "query":
+                if not self.query(rhs[1], scope) or not results:
+                    return "SKIP"
+                raise Unspec("query-valued right-hand side")
             else:
                 raise Unspec("non-literal right-hand side")
             if not results:
